@@ -608,6 +608,26 @@ def boolnum(o):
     return o
 
 
+def alias_norm(o):
+    """a call observation with JSON bodies decoded, Content-Length dropped and bools read as ints (used only to recognise the
+    numeric_alias finding after a round trip of the same instance has already shown it)"""
+    def body(hexs):
+        try:
+            return boolnum(json.loads(bytes.fromhex(hexs).decode("utf-8")))
+        except Exception:
+            return hexs
+    o = json.loads(json.dumps(o))
+    for rq in o.get("requests", []) or []:
+        rq["content_hex"] = body(rq.get("content_hex", ""))
+        rq["headers"] = [h for h in rq.get("headers", []) if h[0].lower() != "content-length"]
+    r = o.get("result")
+    if isinstance(r, dict):
+        if "content_hex" in r:
+            r["content_hex"] = body(r["content_hex"])
+        r["headers"] = [h for h in r.get("headers", []) if h[0].lower() != "content-length"]
+    return boolnum(o)
+
+
 def has_int_enum(ab, kind, seen):
     t = kind[0]
     if t == "enum":
@@ -952,6 +972,7 @@ def relation(opt, doc, base, var, ctx):
                             break
         else:
             pairs, enum_plain = wire
+            alias_seen = False
             if kb != kv and not pairs:
                 fail("the two clients do not expose the same operations", {"base": len(kb), "variant": len(kv)})
             else:
@@ -963,7 +984,11 @@ def relation(opt, doc, base, var, ctx):
                         # exactly the guard complement of FrameCodec.literal_enum_same_wire: a JSON bool at an int-enum position
                         fail("Enum re-emits the member's int where the Literal alias re-emits the received bool",
                              {"op": k, "instance": ctx["instances"].get(k[1], [None] * (k[2] + 1))[k[2]]}, finding="numeric_alias")
+                        alias_seen = True
                         continue
+                    if sx != sy and enum_plain and k[0] == "call" and alias_seen and \
+                            json.dumps(alias_norm(json.loads(sx)), sort_keys=True) == json.dumps(alias_norm(json.loads(sy)), sort_keys=True):
+                        continue     # the same aliasing instance travelling as a request / response body (already reported above)
                     if sx != sy:
                         i = next((i for i in range(min(len(sx), len(sy))) if sx[i] != sy[i]), 0)
                         fail("wire behaviour differs", {"op": k, "base": sx[max(0, i - 80):i + 120], "variant": sy[max(0, i - 80):i + 120]})
